@@ -219,6 +219,53 @@ def writes_before_first_poll_statement : Prop :=
     r.st.oof = false → r.st.errors = [] →
     WritesBeforeFirstPoll ((allMods cfg r.st.ioDict).filter (fun c => r.st.modules.contains c.name)) r.log
 
+/-- start-up faults, the loop of `writeInitParams`: for every module object and **every** assignment of exceptions to its
+`write_` methods (`writeFail`: any class, at any position, any number of them) every configured value is handed to its
+`write_` method exactly once, in the order of `writeDict`, and no exception leaves `writeInitParams` — a refused start
+value never drops the values queued behind it (the class of seeded change C15-m5). -/
+theorem write_faults_lose_no_write (c : ModCfg) :
+    (writeInitParams c).1 = c.writes.map (Ev.write c.name) ∧ (writeInitParams c).2 = none := by
+  rw [writeInitParams_eq]; exact ⟨rfl, rfl⟩
+
+/-- hypotheses met with faults of both `except` arms, first and middle position -/
+def wfM : ModCfg :=
+  { (default : ModCfg) with name := "m", writes := ["w0", "w1", "w2"], writeFail := [("w0", "RuntimeError"), ("w1", "HardwareError")] }
+
+example : (writeInitParams wfM).1 =
+    [Ev.write "m" "w0", Ev.write "m" "w1", Ev.write "m" "w2"] := by decide
+
+/-- ... whereas with the error handling around the whole loop (an exception leaving the loop body) the rest is lost:
+`blocks` stops at the first block an exception leaves -/
+example : blocks [([Ev.write "m" "w0"], some "RuntimeError"), ([Ev.write "m" "w1"], none)] =
+    ([Ev.write "m" "w0"], some "RuntimeError") := by decide
+
+/-- the start-up sequence of a poll thread, for every state of the node, every thread and every assignment of write
+faults: first the configured values of **every** member (each one, in order), then the first polls of the polled members,
+then — last — the report that the first round is done. -/
+theorem prologue_writes_then_polls (st : St) (t : Name) :
+    ∃ W P, prologue st t = W ++ P ++ [Ev.rounddone t] ∧
+      (∀ m ∈ members st t, ∀ p ∈ (cfgOf st m).writes, Ev.write m p ∈ W) ∧
+      (∀ e ∈ W, ∃ m p, e = Ev.write m p) ∧ (∀ e ∈ P, ∃ m, e = Ev.firstpoll m) ∧
+      (∀ m ∈ members st t, (cfgOf st m).poll = true → Ev.firstpoll m ∈ P) := by
+  refine ⟨_, _, prologue_eq st t, ?_, ?_, ?_, ?_⟩
+  · intro m hm p hp
+    exact List.mem_flatMap.mpr ⟨m, hm, List.mem_map.mpr ⟨p, hp, rfl⟩⟩
+  · intro e he
+    obtain ⟨m, _, hm⟩ := List.mem_flatMap.mp he
+    obtain ⟨p, _, rfl⟩ := List.mem_map.mp hm
+    exact ⟨m, p, rfl⟩
+  · intro e he
+    obtain ⟨m, _, rfl⟩ := List.mem_map.mp he
+    exact ⟨m, rfl⟩
+  · intro m hm hp
+    exact List.mem_map.mpr ⟨m, List.mem_filter.mpr ⟨hm, hp⟩, rfl⟩
+
+def wfA : ModCfg := { (default : ModCfg) with name := "a", poll := true, writes := ["w0", "w1"], writeFail := [("w0", "ValueError")] }
+def wfB : ModCfg := { (default : ModCfg) with name := "b", writes := ["w1"] }
+
+example : prologue { modules := ["a"], groups := [("a", "a"), ("a", "b")], mcfg := [wfA, wfB] } "a" =
+    [Ev.write "a" "w0", Ev.write "a" "w1", Ev.write "b" "w1", Ev.firstpoll "a", Ev.rounddone "a"] := by decide
+
 /-- the configuration of the former finding: `d` fails in earlyInit, `u` uses its attachment to `d` in initModule -/
 def findingCfg : Cfg :=
   { mods := [{ (default : ModCfg) with name := "d", failEarly := true },
